@@ -605,13 +605,16 @@ def check_defaults(ctx, num=5):
     ctx.touch(f)
     defs = [n for n in own_nodes(f.node) if isinstance(n, ast.Assign) and len(n.targets) == 1 and isinstance(n.targets[0], ast.Name)
             and isinstance(n.value, ast.Call) and norm.call_name(n.value) == "get_param_defaults"]
-    ctx.ob(num, "K6", "missing parameters are filled in from get_param_defaults()", len(defs) == 1, f, defs[0] if defs else f.node, construct="defaults = get_param_defaults()",
-           detail=f"{[stmt_text(d) for d in defs]}")
-    if len(defs) != 1:
+    calls = [c for c in own_nodes(f.node) if isinstance(c, ast.Call) and norm.call_name(c) == "get_param_defaults"]
+    ctx.ob(num, "K6", "missing parameters are filled in from get_param_defaults()", len(calls) == 1, f, calls[0] if calls else f.node, construct="get_param_defaults()",
+           detail=f"{[stmt_text(d) for d in calls]}")
+    if len(calls) != 1:
         return
-    D = defs[0].targets[0].id
     bad = []
-    for n in own_nodes(f.node):
+    D = defs[0].targets[0].id if len(defs) == 1 else None       # used on the spot (`for k, v in get_param_defaults().items()`): nothing can be stored into it
+    if D is None:
+        defs = [calls[0]]
+    for n in (own_nodes(f.node) if D is not None else []):
         tg = []
         if isinstance(n, (ast.Assign, ast.Delete)):
             tg = n.targets
